@@ -241,14 +241,37 @@ def uniSeek (s : Skiplist) (reversed : Bool) (key : Bytes) : SkRef :=
 def uniNext (s : Skiplist) (reversed : Bool) (n : SkRef) : Option SkRef :=
   if !reversed then s.iterNext n else s.iterPrev n
 
+def isNode : SkRef → Bool
+  | .node _ => true
+  | _ => false
+
+def refKey : SkRef → Bytes
+  | .node k => k
+  | _ => []
+
+/-- `UniIterator` over a skiplist that is not modified meanwhile, as a `y.Iterator` method
+    table (state = `iter.n`).  `Next` on an invalid iterator (Go: fatal assertion) is
+    totalised to a no-op; `MergeIterator` never makes that call. -/
+def uniOps (s : Skiplist) (reversed : Bool) : IterOps SkRef :=
+  { rewind := fun _ => s.uniRewind reversed
+    seek := fun k _ => s.uniSeek reversed k
+    next := fun n => (s.uniNext reversed n).getD n
+    valid := isNode
+    key := refKey
+    value := fun n => s.valueOf (refKey n)
+    size := fun _ => (s.level 0).length }
+
+/-- `s.NewUniIterator(reversed)` as an interface value -/
+def uniIter (s : Skiplist) (reversed : Bool) : AnyIter := ⟨SkRef, uniOps s reversed, .nil⟩
+
 /-- the level-0 chain with values: what a full forward iteration returns -/
-def toList (s : Skiplist) : List Entry := (s.level 0).map (fun k => ⟨k, s.valueOf k⟩)
+def toList (s : Skiplist) : List ItEntry := (s.level 0).map (fun k => ⟨k, s.valueOf k⟩)
 
 end Skiplist
 
 /-! ## Specification: a sorted association list under `compareKeys` with insert-or-replace -/
 
-def sortedInsert (k v : Bytes) : List Entry → List Entry
+def sortedInsert (k v : Bytes) : List ItEntry → List ItEntry
   | [] => [⟨k, v⟩]
   | e :: es =>
     match compareKeys k e.key with
@@ -256,7 +279,43 @@ def sortedInsert (k v : Bytes) : List Entry → List Entry
     | .eq => ⟨k, v⟩ :: es
     | .gt => e :: sortedInsert k v es
 
-def sortedInsertAll (puts : List (Bytes × Bytes)) : List Entry :=
+def sortedInsertAll (puts : List (Bytes × Bytes)) : List ItEntry :=
   puts.foldl (fun acc p => sortedInsert p.1 p.2 acc) []
+
+/-- first key `≥ key` of a chain -/
+def lowerBound (key : Bytes) (c : List Bytes) : Option Bytes :=
+  c.find? (fun k => compareKeys key k != .gt)
+/-- first key `> key` -/
+def upperBound (key : Bytes) (c : List Bytes) : Option Bytes :=
+  c.find? (fun k => compareKeys key k == .lt)
+/-- last key `≤ key` -/
+def lastLE (key : Bytes) (c : List Bytes) : Option Bytes :=
+  (c.filter (fun k => compareKeys key k != .lt)).getLast?
+/-- last key `< key` -/
+def lastLT (key : Bytes) (c : List Bytes) : Option Bytes :=
+  (c.filter (fun k => compareKeys key k == .gt)).getLast?
+
+/-- what `findNear(key, less, allowEqual)` has to return on a list with keys `c` -/
+def nearSpec (c : List Bytes) (key : Bytes) : (less allowEqual : Bool) → Option Bytes
+  | false, true => lowerBound key c
+  | false, false => upperBound key c
+  | true, true => lastLE key c
+  | true, false => lastLT key c
+
+def refOfOpt : Option Bytes → SkRef
+  | none => .nil
+  | some k => .node k
+
+namespace Skiplist
+/-- consumer loop of a forward `Iterator`: at most `n` entries starting at position `x` -/
+def collectFwd (s : Skiplist) : Nat → SkRef → List ItEntry
+  | n + 1, .node k => ⟨k, s.valueOf k⟩ :: collectFwd s n (s.getNext (.node k) 0)
+  | _, _ => []
+
+/-- consumer loop with `Prev` -/
+def collectRev (s : Skiplist) : Nat → SkRef → List ItEntry
+  | n + 1, .node k => ⟨k, s.valueOf k⟩ :: collectRev s n (s.findNear k true false).1
+  | _, _ => []
+end Skiplist
 
 end Badger
